@@ -61,6 +61,7 @@ struct SchemaGen {
 	bool printable_only = false; // only kinds cfg_print can write back (C05)
 	bool string_defaults_hostile = false;
 	bool decl_comments = false;  // some declarations carry an annotation (cfg_opt_t.comment)
+	bool simple = false;         // some scalar options are bound to application variables (CFG_SIMPLE_*)
 };
 
 json gen_schema(Rng &r, const SchemaGen &g); // {"opts":[...]}
